@@ -167,7 +167,32 @@ def work(item, tier, seed):
                         if res.states % 701 == 1:
                             res.add_sample({"program": pname, "selection": sig, "selected": [list(p) for p in sorted(den)], "path": tree.path_json(leaf), "weight": w})
 
-                    st = tree.explore(run, gfi.std_menu, on_leaf, max_leaves=5000 if tier == "quick" else 50000, check_determinism=False)
+                    leaves_seen = []
+                    _on_leaf = on_leaf
+
+                    def on_leaf2(leaf, _on_leaf=_on_leaf, leaves_seen=leaves_seen):
+                        _on_leaf(leaf)
+                        if len(leaves_seen) < 2:
+                            leaves_seen.append(leaf)
+                        else:
+                            leaves_seen[-1] = leaf
+
+                    st = tree.explore(run, gfi.std_menu, on_leaf2, max_leaves=5000 if tier == "quick" else 50000, check_determinism=False)
+                    # eager replay (no jit) of the first and last leaf
+                    for leaf in leaves_seen[: (1 if tier == "quick" else 2)]:
+                        try:
+                            (etr, ew, _ed), _evs = env.run_recorded(lambda k, t, *a: gseed(fn.regenerate)(k, t, sel, *a), key, old_tr, *jnew, mode="script", decisions=leaf.D)
+                            res.evaluations += 1
+                            res.transitions += 1
+                            jtr, jw, _jd = leaf.out
+                            if not gfi.tree_bits_equal(R.to_numpy(etr.get_choices()), R.to_numpy(jtr.get_choices())):
+                                res.violate(PROP, f"eager-vs-jit-choices:{pname}", decisions=tree.D_json(leaf.D), **det)
+                            if not H.close(np.asarray(ew), np.asarray(jw), rtol=1e-5, atol=1e-5):
+                                res.violate(PROP, f"eager-weight:{pname}", eager_weight=np.asarray(ew), jit_weight=np.asarray(jw), decisions=tree.D_json(leaf.D), **det)
+                        except Exception as ex:
+                            handler_stack.clear()
+                            res.violate(PROP, f"regenerate-eager-raises:{pname}", error=f"{type(ex).__name__}: {str(ex)[:300]}", **det)
+                            break
                     res.transitions += st.nodes
                     res.capped |= st.capped
                     if not st.capped and abs(st.total_prob - 1.0) > 1e-6:
